@@ -304,3 +304,44 @@ func VerifH_C11_RegexpVerbatim() {
 	verifrt.Assert(len(got) == 1 && verifrt.EqBytes([]byte(got[0]), exp), "the expression reaches the regexp engine octet for octet as written")
 	verifrt.Assert((err != nil) == fail, "an expression the engine rejects is reported, a good one accepted")
 }
+
+// VerifH_C11_DeepNames: matching is by label suffix at EVERY depth a name can have, not only for the 2-3 labels of
+// everyday names: a `domain:` entry of d labels (d = 1..20, thorough 1..60 — reverse-mapping names under ip6.arpa
+// have 34) against a query that is the entry itself or has 1..2 more labels in front, with one label of the query
+// (any position) an arbitrary octet: the matcher agrees with the suffix-on-label-boundary reference. A second,
+// shallow entry is loaded before or after the deep one (the result may not depend on it unless it matches itself).
+func VerifH_C11_DeepNames() {
+	verifrt.Unwind(400)
+	maxDepth := 20
+	if verifrt.Thorough() {
+		maxDepth = 60
+	}
+	d := 1 + verifrt.Choose("depth", maxDepth)
+	var e [][]byte
+	for i := 0; i < d; i++ {
+		e = append(e, []byte{byte('a' + i%26)})
+	}
+	extra := verifrt.Choose("extra", 3)
+	var q [][]byte
+	for i := 0; i < extra; i++ {
+		q = append(q, []byte{'x'})
+	}
+	for i := 0; i < d; i++ {
+		q = append(q, []byte{e[i][0]})
+	}
+	j := verifrt.Choose("perturbed", len(q))
+	q[j] = verifrt.BytesN("ql", 1)
+	other := [][]byte{{'z'}, {'z'}}
+	m := NewDomainMatcher()
+	otherFirst := verifrt.Bool("other-first")
+	if otherFirst {
+		m.Add(other)
+	}
+	m.Add(e)
+	if !otherFirst {
+		m.Add(other)
+	}
+	got := m.Match(vWire(q))
+	verifrt.Reach("matched")
+	verifrt.Assert(got == verifrt.Or(refSuffix(e, q), refSuffix(other, q)), "deep names match by label suffix exactly like shallow ones")
+}
